@@ -50,6 +50,8 @@ class ExprMixin:
         oc = getattr(self.d.contract, 'opaque_ctors', None) or {}
         if name in oc:
             return SBuiltin('ctor!' + name)
+        if name in (getattr(self.d.contract, 'pure_ctors', None) or []):
+            return SBuiltin('purector!' + name)
         g = self.d.contract.globals
         if name in g:
             return self.sym_cases_fixed(g[name], f'g.{name}')
